@@ -116,6 +116,22 @@ def run(chk: core.Check, tier: str, seed: int) -> None:
             except Exception as err:  # noqa: BLE001
                 rec["rout"], rec["cls"], rec["rlocs"] = "raise", type(err).__name__, []
             recs.append(rec)
+    # the systematic floor under the sampling: EVERY nasty name as a member name once, at the top and below
+    for name in gen.NASTY_NAMES:
+        d = {name: 1, "z": {name: [2, {name: 3}]}}
+        ed = core.enc_value(d)
+        for q in ("$.*", "$..*"):
+            for n in jp.find(q, d):
+                found, obj = impl.walk(d, n.location)
+                rec = {"op": "requery", "q": core.enc_text(q), "doc": ed, "loc": core.enc_loc(n.location),
+                       "path": core.enc_text(n.path()), "vok": bool(found and impl.same_object(obj, n.value)), "lists": True}
+                try:
+                    again = jp.find(n.path(), d)
+                    rec["rout"], rec["cls"] = "ok", ""
+                    rec["rlocs"] = [core.enc_loc(a.location) for a in again]
+                except Exception as err:  # noqa: BLE001
+                    rec["rout"], rec["cls"], rec["rlocs"] = "raise", type(err).__name__, []
+                recs.append(rec)
     n_nodes = len(recs)
     for r in recs:
         chk.nontrivial.add((tuple(r["path"]), str(r["doc"])[:120]))
